@@ -266,6 +266,22 @@ Fixpoint c17_mon (pending : list cmd) (stopped : bool) (tr : trace) : bool :=
   end.
 Definition C17_ok (tr : trace) : bool := c17_mon [] false tr.
 
+(* ... and it is taken soon: the control loop drains the whole queue in every tick, so no accepted command is still
+   waiting when the second tick after its acceptance begins.  [ages]: for every waiting command, the number of ticks
+   that have begun since it was accepted. *)
+Fixpoint c17_live (ages : list nat) (tr : trace) : bool :=
+  match tr with
+  | [] => true
+  | (t, l) :: r =>
+      match t, l with
+      | _, LQPut _ true => c17_live (ages ++ [0]) r
+      | TCtl, LQGet _ => c17_live (tl ages) r
+      | TCtl, LSaveCond _ => forallb (fun a => a <? 2) ages && c17_live (map S ages) r
+      | _, _ => c17_live ages r
+      end
+  end.
+Definition C17_live (tr : trace) : bool := c17_live [] tr.
+
 (* the status decision table, for any number of threads *)
 Inductive status := StActive | StPausing | StPaused | StResuming | StShuttingDown.
 Definition status_of (shutdown resume : bool) (flags : list bool) : status :=
@@ -352,7 +368,7 @@ Definition c17_agree (c : c17case) : bool :=
   end.
 Definition c17_prop_ok (c : c17case) : bool :=
   match c with
-  | C17Run i tr => C17_ok tr
+  | C17Run i tr => C17_ok tr && C17_live tr
   | C17Table sh rs flags obs => status_eqb (status_of sh rs flags) obs
   | C17Status n h => truthful n h
   end.
